@@ -165,6 +165,8 @@ type fnExec struct {
 	params          map[string]sval
 	obls            []*Obligation
 	oblByName       map[string]*Obligation
+	taintedBy       string // set once the function has called an impure contract-less helper as opaque
+	sweep           bool   // zero-annotation sweep: no precondition, so only property-level replays count
 	textCount       map[string]int
 	nodeText        map[token.Pos]string
 	callCount       map[string]int
@@ -1761,7 +1763,9 @@ func (fx *fnExec) canInline(f *ssa.Function) bool {
 			}
 		}
 	}
-	return true
+	// a helper the engine cannot execute (an instruction outside the supported subset) must not abort
+	// its caller: it is then called as an opaque function instead (and swept as far as possible)
+	return fx.g.dryRunOK(f)
 }
 
 // inlineCall executes the body of a loop-free callee in place (used when the callee has no usable
